@@ -19,7 +19,7 @@ import (
 
 // tree is the Go image of an AstTree value.
 type tree struct {
-	K     string // num | str | null | arr | obj
+	K     string // num | str | null | lit (true, false, number text with fraction / exponent: S is the JSON text) | arr | obj
 	N     int
 	S     string
 	Elems []*tree  // arr
@@ -49,6 +49,8 @@ func (t *tree) render(sb *strings.Builder) {
 		sb.WriteString(strconv.Quote(t.S))
 	case "null":
 		sb.WriteString("null")
+	case "lit":
+		sb.WriteString(t.S)
 	case "arr":
 		sb.WriteByte('[')
 		for i, e := range t.Elems {
@@ -87,6 +89,11 @@ func (t *tree) toNode() ast.Node {
 		return ast.NewString(t.S)
 	case "null":
 		return ast.NewNull()
+	case "lit":
+		if t.S == "true" || t.S == "false" {
+			return ast.NewBool(t.S == "true")
+		}
+		return ast.NewNumber(t.S)
 	case "arr":
 		ns := make([]ast.Node, len(t.Elems))
 		for i, e := range t.Elems {
